@@ -10,7 +10,7 @@ Definition c03_ops (c : c03case) : list sop := match c with C03Case _ h f => h +
 Definition c03_final (c : c03case) : list sop := match c with C03Case _ _ f => f end.
 
 (* what the model says the implementation shows *)
-Definition run_C03 (c : c03case) : list Z := run_obs false (init_sys (c03_n c)) (c03_ops c).
+Definition run_C03 (c : c03case) : list Z := run_obs (init_sys (c03_n c)) (c03_ops c).
 
 (* ---- the property's own oracle, on what the IMPLEMENTATION showed ---- *)
 Fixpoint replay_C03 (st : ostate) (ops : list sop) (blocks : list (Z * replica)) : bool :=
@@ -45,24 +45,23 @@ Definition spec_C03 (c : c03case) (obs : list Z) : bool :=
       && all_agree (final_sys st0 (c03_ops c) blocks)
   end.
 
-(* classes of histories on which the tree is known to violate the property (known_findings.d/C03.json):
-   decided on the model's run of the same history
-   1  a pull stores a row at or below a deletion record the receiver holds (C11: no tombstone lookup)
-   2  a deletion record removes a stored version other than the one it names
-   3  two deletion records of one row travel in one answer: the receiver keeps one
-   4  a pull did not select every day on which the source holds something the receiver needs *)
+(* classes of histories on which the tree is known to violate the property (known_findings.d/C03.json),
+   decided on the model's run of the same history.  Classes 2 (a deletion record removing another
+   version than the one it names) and 3 (two deletion records of one row collapsing to one) are fixed
+   (ad91329, bb1bffb) and no longer exist in the model; what is left is
+   4  a pull did not select every day on which the source holds something the receiver needs
+      (history-hash shortcut, C09 class 4) *)
 Definition known_C03 (c : c03case) : list Z :=
-  let ev := run_events false (init_sys (c03_n c)) (c03_ops c) in
-  (if ev_resurrect ev then [1] else []) ++ (if ev_othervers ev then [2] else []) ++
-  (if ev_collapse ev then [3] else []) ++
-  (if run_complete false (init_sys (c03_n c)) (c03_ops c) then [] else [4]).
+  if run_complete (init_sys (c03_n c)) (c03_ops c) then [] else [4].
 
-(* the model's own view of "the last two rounds request nothing" (hypothesis of C03_outside_known) *)
+(* the model's own view of "the last rounds move nothing" (hypothesis of C03_outside_known): the final
+   operations are pulls, and every day they select, exchanged with the receiver as it is, requests no
+   row and leaves the receiver as it is *)
 Definition c03_hist (c : c03case) : list sop := match c with C03Case _ h _ => h end.
-Definition c03_quiet (c : c03case) : bool :=
-  forallb (Z.eqb 0) (run_flags false (run_sys false (init_sys (c03_n c)) (c03_hist c)) (c03_final c)).
-Definition no_deletes (ops : list sop) : bool :=
-  forallb (fun o => match o with Delete _ _ _ => false | _ => true end) ops.
+Definition c03_quiet (c : c03case) : bool := still (run_sys (init_sys (c03_n c)) (c03_hist c)) (c03_final c).
+(* the envelope: creations use ids the peer does not know yet, no local update carries a clock that
+   is behind the version it replaces *)
+Definition c03_envelope (c : c03case) : bool := negb (run_guard (init_sys (c03_n c)) (c03_ops c)).
 
 Definition eval_C03 (c : c03case) (obs : list Z) : list Z :=
   [zb (zlist_eqb (run_C03 c) obs); zb (spec_C03 c obs)] ++ known_C03 c.
